@@ -71,6 +71,8 @@ FS_HELPER_NO_CTX = ("        raise TypeError(\"URI must be unicode string or byt
                     "    # We allow and check ALLEGED_READONLY_PREFIX")
 UN_MOVE = ("                given_ro_uri = given_rw_uri\n"
            "                given_rw_uri = None\n")
+NM_KEY = ("        if deep_immutable:\n            memokey = b\"I\" + bigcap\n"
+          "        else:\n            memokey = b\"M\" + bigcap\n")
 UN_BOTH_IMM = ("            elif given_ro_uri.startswith(ALLEGED_IMMUTABLE_PREFIX):\n"
                "                # Strange corner case")
 
@@ -258,6 +260,52 @@ MUTANTS = [
     M("benign-unknown-rw-prefix-test-de-morgan", K,
       "                if not (given_rw_uri.startswith(ALLEGED_READONLY_PREFIX)\n                        or given_rw_uri.startswith(ALLEGED_IMMUTABLE_PREFIX)):",
       "                if (not given_rw_uri.startswith(ALLEGED_READONLY_PREFIX)\n                        and not given_rw_uri.startswith(ALLEGED_IMMUTABLE_PREFIX)):", None),
+    # ---- C16.14 the node cache key keeps the whole string that is parsed
+    M("cache-key-alleged-prefix-stripped", NM, NM_KEY,
+      "        barecap = bigcap\n"
+      "        for prefix in (uri.ALLEGED_IMMUTABLE_PREFIX, uri.ALLEGED_READONLY_PREFIX):\n"
+      "            if barecap.startswith(prefix):\n"
+      "                barecap = barecap[len(prefix):]\n"
+      "                break\n"
+      + NM_KEY.replace("+ bigcap", "+ barecap"), "C16.14"),
+    M("cache-key-from-uri-marker", NM, NM_KEY, NM_KEY.replace("b\"M\" + bigcap", "b\"M\" + bigcap[bigcap.find(b\"URI:\"):]"), "C16.14"),
+    M("cache-key-prefix-replaced", NM, NM_KEY,
+      NM_KEY.replace("b\"M\" + bigcap", "b\"M\" + bigcap.replace(uri.ALLEGED_READONLY_PREFIX, b\"\", 1)"), "C16.14"),
+    M("cache-lookup-falls-back-to-bare-cap", NM, "        except KeyError:\n            cap = uri.from_string(bigcap",
+      "        except KeyError:\n            node = None\n"
+      "            if bigcap.startswith(uri.ALLEGED_READONLY_PREFIX):\n"
+      "                node = self._node_cache.get(memokey[:1] + bigcap[len(uri.ALLEGED_READONLY_PREFIX):])\n"
+      "        if node is None:\n            cap = uri.from_string(bigcap", "C16.14"),
+    M("cache-stored-under-bare-cap-too", NM, "                self._node_cache[memokey] = node  # note: WeakValueDictionary\n",
+      "                self._node_cache[memokey] = node  # note: WeakValueDictionary\n"
+      "                self._node_cache[memokey[:1] + bigcap.split(b\".\", 1)[-1]] = node\n", "C16.14"),
+    M("cache-key-from-writecap-only", NM, NM_KEY, NM_KEY.replace("b\"M\" + bigcap", "b\"M\" + (writecap or b\"\")"), "C16.14"),
+    M("benign-cache-key-ifexp-tag", NM, NM_KEY, "        memokey = (b\"I\" if deep_immutable else b\"M\") + bigcap\n", None),
+    M("benign-cache-key-via-copy", NM, NM_KEY, "        capstr = bigcap\n" + NM_KEY.replace("+ bigcap", "+ capstr"), None),
+    M("benign-cache-get-instead-of-try", NM,
+      "        try:\n            node = self._node_cache[memokey]\n        except KeyError:\n            cap = uri.from_string(bigcap",
+      "        node = self._node_cache.get(memokey)\n        if node is None:\n            cap = uri.from_string(bigcap", None),
+    M("benign-cache-key-tagged-tuple-with-extra", NM, NM_KEY, "        memokey = (deep_immutable, bigcap, len(bigcap))\n", None),
+    # ---- C16.15 from_string / UnknownNode are handed the given strings themselves
+    M("given-cap-normalised-before-parse", NM, "        # The name doesn't matter for caching since",
+      "        if bigcap.startswith(uri.ALLEGED_READONLY_PREFIX):\n"
+      "            bigcap = bigcap[len(uri.ALLEGED_READONLY_PREFIX):]\n"
+      "        # The name doesn't matter for caching since", ["C16.15", "C16.14"]),
+    M("parse-of-stripped-cap", NM, "            cap = uri.from_string(bigcap, deep_immutable=deep_immutable,",
+      "            cap = uri.from_string(bigcap.lstrip(b\"imro.\"), deep_immutable=deep_immutable,", "C16.15"),
+    M("unknown-node-given-bare-caps", NM, "                node = UnknownNode(writecap, readcap,\n",
+      "                node = UnknownNode(writecap and writecap.split(b\".\", 1)[-1], readcap,\n", "C16.15"),
+    M("unknown-node-given-bigcap-as-writecap", NM, "                node = UnknownNode(writecap, readcap,\n",
+      "                node = UnknownNode(bigcap, readcap,\n", "C16.15"),
+    M("unknown-node-writecap-in-read-slot", NM, "                node = UnknownNode(writecap, readcap,\n",
+      "                node = UnknownNode(None, readcap or writecap,\n", "C16.15"),
+    M("benign-parse-of-inline-selection", NM, "            cap = uri.from_string(bigcap, deep_immutable=deep_immutable,",
+      "            cap = uri.from_string(writecap or readcap, deep_immutable=deep_immutable,", None),
+    M("benign-unknown-node-slots-by-keyword", NM, "                node = UnknownNode(writecap, readcap,\n",
+      "                node = UnknownNode(given_ro_uri=readcap or None, given_rw_uri=writecap or None,\n", None),
+    M("benign-bigcap-by-branches", NM, "        bigcap = writecap or readcap\n",
+      "        if writecap:\n            bigcap = writecap\n        else:\n            bigcap = readcap\n", None),
     # ---- vanished anchor
+    M("vanish-node-cache", NM, "                self._node_cache[memokey] = node  # note: WeakValueDictionary\n", "                pass\n", "ANALYSIS-ERROR"),
     M("vanish-wrap-dirnode-cap", U, "def wrap_dirnode_cap(filecap):", "def wrap_dirnode_capX(filecap):", "ANALYSIS-ERROR"),
 ]
